@@ -21,10 +21,6 @@ fn nuc_seq(rng: &mut Rng, len: usize) -> Vec<u8> {
 }
 
 fn pick_size(rng: &mut Rng) -> u64 {
-    if rng.chance(1, 12) {
-        // square sizes beyond 32 bits (the option is a u64; nothing may be narrowed on the way to the arithmetic)
-        return *rng.pick(&[1u64 << 31, (1 << 31) + 1, 1 << 32, (1 << 32) + 1, (1 << 32) + 6, (1 << 40) + 3, 1 << 52]);
-    }
     match rng.below(3) {
         0 => *rng.pick(&[1u64, 2, 3, 7, 16, 1000, 1 << 20]),
         1 => rng.range(1, 64),
@@ -47,14 +43,7 @@ pub fn check_points(seq: &[u8], s: u64, pts: &[(f64, f64)]) -> Result<(), (Strin
     if pts.len() != seq.len() {
         return Err(("cgr.point_count".into(), format!("{} points for {} bases", pts.len(), seq.len())));
     }
-    // the exact oracle holds S * 2^i in a u128: squares beyond 2^20 get correspondingly fewer exact points
-    let bits = (64 - s.leading_zeros()) as usize;
-    let exact = model::cgr_exact(seq, s, EXACT_POINTS.min(126usize.saturating_sub(bits))).expect("nucleotide sequence");
-    // sub-square bounds are exact in f64 while S * 2^j < 2^53 (always so up to S = 2^20 and for powers of two); for
-    // other large S fewer levels are used and the f64 rounding a correct implementation may accumulate (< S * 2^-52) is allowed
-    let wide = s > (1 << 20) && !s.is_power_of_two();
-    let max_j = if wide { 30usize.min(52usize.saturating_sub(bits)).max(1) } else { 30 };
-    let slack = if wide { s as f64 * (0.5f64).powi(50) } else { 0.0 };
+    let exact = model::cgr_exact(seq, s, EXACT_POINTS).expect("nucleotide sequence");
     for (i, &(x, y)) in pts.iter().enumerate() {
         if !x.is_finite() || !y.is_finite() {
             return Err(("cgr.not_finite".into(), format!("point {} = ({}, {})", i, x, y)));
@@ -69,12 +58,12 @@ pub fn check_points(seq: &[u8], s: u64, pts: &[(f64, f64)]) -> Result<(), (Strin
             }
         }
         // containment in the sub-square fixed by the last j bases
-        let j = (i + 1).min(max_j);
+        let j = (i + 1).min(30);
         let (lx, ly, jj) = model::cgr_subsquare(&seq[i + 1 - j..=i]).expect("nucleotide");
         let scale = (0.5f64).powi(jj as i32) * s as f64;
         let (x0, x1) = (lx as f64 * scale, (lx + 1) as f64 * scale);
         let (y0, y1) = (ly as f64 * scale, (ly + 1) as f64 * scale);
-        if x < x0 - slack || x > x1 + slack || y < y0 - slack || y > y1 + slack {
+        if x < x0 || x > x1 || y < y0 || y > y1 {
             return Err((
                 "cgr.containment".into(),
                 format!("point {} = ({}, {}) outside the sub-square [{}, {}] x [{}, {}] fixed by its last {} bases (S={})", i, x, y, x0, x1, y0, y1, j, s),
